@@ -13,6 +13,7 @@ struct pmf_s { void set_div() { k_set_div(); } };
 struct K_rsd {
   std::vector<std::string> input_prefix;    //@real colvarbias_abf.h
   bool    b_integrate;                      //@real colvarbias_abf.h
+  int   pabf_freq;                          //@real colvarbias_abf.h
   bool    shared_on;                        //@real colvarbias_abf.h
   size_t  shared_freq;                      //@real colvarbias_abf.h
   cvm::step_number shared_last_step;        //@real colvarbias_abf.h
@@ -26,7 +27,7 @@ struct K_rsd {
 extern "C" long long k_read_state_data(bool b_integrate, bool shared_on, size_t shared_freq, bool czar, long long last_step_in) {
   K_rsd f; IST is; grid_s g[8]; pmf_s pm; for (int k = 0; k < 8; k++) g[k].tag = k;
   f.samples = &g[0]; f.gradients = &g[1]; f.local_samples = &g[2]; f.local_gradients = &g[3]; f.z_samples = &g[4]; f.z_gradients = &g[5]; f.last_samples = &g[6]; f.last_gradients = &g[7]; f.pmf = &pm;
-  f.input_prefix.p_ = 0; f.input_prefix.n_ = 0; f.input_prefix.cap_ = 0; f.b_integrate = b_integrate; f.shared_on = shared_on; f.shared_freq = shared_freq; f.b_CZAR_estimator = czar; f.shared_last_step = last_step_in;
+  f.input_prefix.p_ = 0; f.input_prefix.n_ = 0; f.input_prefix.cap_ = 0; f.b_integrate = b_integrate; f.pabf_freq = (int) (shared_freq % 3); f.shared_on = shared_on; f.shared_freq = shared_freq; f.b_CZAR_estimator = czar; f.shared_last_step = last_step_in;
   e_i[0] = b_integrate; e_i[1] = shared_on; e_i[2] = (int) shared_freq; e_i[3] = czar;
   f.body(is);
   return f.shared_last_step;
